@@ -379,7 +379,7 @@ func TestC17(t *testing.T) {
 	excl.ArrayAlias = rec.KnownActive("KF-array-alias", false)
 	rec.ReplayTier()
 
-	check(rec, "number-random", scale(12000, 1500000), func(rt *rapid.T) {
+	check(rec, "number-random", scale(12000, 20000000), func(rt *rapid.T) {
 		var x float64
 		if rapid.IntRange(0, 2).Draw(rt, "uniformbits") == 0 {
 			x = math.Float64frombits(rapid.Uint64().Draw(rt, "bits"))
@@ -403,8 +403,9 @@ func TestC17(t *testing.T) {
 		}
 	})
 
-	check(rec, "render-random", scale(8000, 200000), func(rt *rapid.T) {
+	check(rec, "render-random", scale(8000, 6000000), func(rt *rapid.T) {
 		c, labels, _ := genC17(rt)
+		defer inflight("C17", "render", c, "")()
 		var ls []string
 		for l := range labels {
 			ls = append(ls, l)
@@ -418,7 +419,7 @@ func TestC17(t *testing.T) {
 		}
 	})
 
-	check(rec, "reread-random", scale(5000, 100000), func(rt *rapid.T) {
+	check(rec, "reread-random", scale(5000, 4000000), func(rt *rapid.T) {
 		doc := gen.JSONDoc(gen.DocOpts{Depth: rapid.IntRange(1, 4).Draw(rt, "depth"), MaxItems: 3, SafeStr: true, ForceEmpty: true}).Draw(rt, "doc")
 		c := &C17Doc{Doc: gen.Compact(doc)}
 		msg := c17DocCheck(c)
